@@ -401,6 +401,19 @@ func taintFrom(root *ssa.Function, sources ...ssa.Value) *taintSet {
 					mark(x.Map)
 				}
 			case *ssa.Call:
+				// in-memory writers: b.WriteString(x) puts x into b, b.String() reads it back
+				if cn := callName(&x.Call); (strings.HasPrefix(cn, "strings.(Builder).") || strings.HasPrefix(cn, "bytes.(Buffer).")) && len(x.Call.Args) >= 1 {
+					recv := x.Call.Args[0]
+					if strings.Contains(cn, ").Write") {
+						for _, a := range x.Call.Args[1:] {
+							if ts.vals[a] {
+								markCell(recv)
+							}
+						}
+					} else if ts.cells[cellOf(recv, bind)] {
+						mark(x)
+					}
+				}
 				any := false
 				for _, a := range x.Call.Args {
 					if ts.vals[a] {
